@@ -87,5 +87,26 @@ theorem adj_inverse_rows (q : Quat K) (p v : V3 K) (t : K) :
           (M3.skew (((q.conj.toRot.mulVec (p.sub (v.smul t))).neg).sub (((q.conj.toRot.mulVec v).neg).smul (-t)))).mul q.conj.toRot,
           M3.zero, q.conj.toRot, (M3.skew ((q.conj.toRot.mulVec v).neg)).mul q.conj.toRot,
           M3.zero, M3.zero, q.conj.toRot⟩ ((q.conj.toRot.mulVec v).neg) V3.zero V3.zero (Scalar.nat 1) := rfl
+/-- **SGal(3) act, w.r.t. the element** (`J_pout_m = [R | 0 | −R[x]× | v]`, the model's `actJm`):
+    `(X ⊞ εd)·x = X·x + ε (R ρ − R [x]× θ + v ι)`. -/
+theorem act_Jm (q : Quat K) (px vx x rho th : V3 K) (iota : K) (hq : q.sqn = 1) :
+    (((((SO3.liftQ q).toRot.mulVec (SE3.epsV rho)).add ((SE3.liftV vx).smul (⟨0, iota⟩ : Dual K))).add (SE3.liftV px)).add
+        (((SO3.liftQ q).mul (SO3.pertQ th)).toRot.mulVec (SE3.liftV x))) =
+      ((SE3.liftV (px.add (q.toRot.mulVec x))).add
+        (SE3.epsV (((q.toRot.mulVec rho).add ((q.toRot.neg.mul (M3.skew x)).mulVec th)).add (vx.smul iota)))) := by
+  rw [SE3.rot_mul_pert q hq]
+  have hn : q.toRot.neg = ⟨-q.toRot.a00, -q.toRot.a01, -q.toRot.a02, -q.toRot.a10, -q.toRot.a11, -q.toRot.a12,
+      -q.toRot.a20, -q.toRot.a21, -q.toRot.a22⟩ := rfl
+  rw [hn]
+  apply SE3.v3ext <;> apply Dual.ext' <;>
+    simp [Quat.toRot, SO3.liftQ, SE3.liftV, SE3.epsV, M3.mulVec, M3.mul, M3.skew, V3.add, V3.smul, sum3] <;> ring1
+
+/-- **SGal(3) inverse, velocity part** (`J_minv_m = −Adj_X`, `ν` row `[0, R, [v]× R, 0]`): instance of the SE3 lemma. -/
+theorem inverse_J_vel (q : Quat K) (v nu th : V3 K) (hq : q.sqn = 1) :
+    ((((SO3.liftQ q).mul (SO3.pertQ th)).conj.toRot.mulVec
+        (((SO3.liftQ q).toRot.mulVec (SE3.epsV nu)).add (SE3.liftV v))).neg) =
+      (SE3.liftV ((q.conj.toRot.mulVec v).neg)).add
+        ((SO3.liftQ q.conj).toRot.mulVec (SE3.epsV (((q.toRot.mulVec nu).add (((M3.skew v).mul q.toRot).mulVec th)).neg))) :=
+  SE3.inverse_J_trans q v nu th hq
 end SGal3
 end Manif
